@@ -34,6 +34,7 @@ def cases(draw, nums, pmax=5, kmax=4):
     return {"U": U, "p": p, "w": w, "num": num, "pairs": pairs, "slices": slices, "sj": sj,
             "eval_before_weights": draw(st.booleans()),
             "order": draw(st.sampled_from(lib.SEQ_ORDERS)),
+            "repeats": draw(st.sampled_from([None, None, None, "mirror", "some"])),
             "form": draw(st.sampled_from(["tuple", "tuple", "list", "gen", "iter", "map"])),
             "reject_first": draw(st.sampled_from([None, None, None, "negative", "zero", "length"]))}
 
@@ -94,7 +95,7 @@ def check(case, out):
         except ValueError:
             pass
     # the nodes of the multi-node calls: in any order, in any accepted sequence form (one-shot iterables included)
-    params = lib.reorder(gen.params_of(case["U"], 2), case.get("order", "given"))
+    params = lib.with_repeats(lib.reorder(gen.params_of(case["U"], 2, gen.NEAR), case.get("order", "given")), case.get("repeats"))
     out.cls("order=" + case.get("order", "given"), "form=" + case.get("form", "tuple"))
 
     def nodeseq():
